@@ -193,7 +193,7 @@ def run(case):
         i_t, m_t, i_n, m_n, i_x, m_x = tr
         tol = [-1.0, E[i_t % len(E)], E[i_t % len(E)] * (1 + 1e-9), E[i_t % len(E)] * (1 - 1e-9)][m_t]
         min_ev = max(1, [1, N[i_n % len(N)], N[i_n % len(N)] + 1, N[i_n % len(N)] - 1][m_n])
-        max_ev = [None, N[i_x % len(N)], N[i_x % len(N)] - 1, N[i_x % len(N)] + 1][m_x]
+        max_ev = [None, N[i_x % len(N)], N[i_x % len(N)] - 1, N[i_x % len(N)] + 1, 0][m_x]
         kstar = None
         why = None
         for k in range(len(E)):
@@ -323,7 +323,7 @@ def _strategy(kind):
                 c.update(lmin=draw(st.integers(1, 2)), lmax=None)
                 c["maxev"] = draw(st.integers(20, 250))
             c["triples"] = draw(st.lists(st.tuples(st.integers(0, 40), st.sampled_from([0, 1, 1, 2, 3]), st.integers(0, 40), st.sampled_from([0, 0, 1, 2, 3]),
-                                                   st.integers(0, 40), st.sampled_from([0, 1, 2, 3])).map(list), min_size=1, max_size=3))
+                                                   st.integers(0, 40), st.sampled_from([0, 1, 2, 3, 4])).map(list), min_size=1, max_size=3))
             return c
         return s()
     return strat
